@@ -58,6 +58,27 @@ Section LogShape.
         unfold akeys in *. simpl. now rewrite Hk.
   Qed.
 
+  Lemma submit_results tasks : forall s results sublog s',
+    submit V St ops exec sub p g tasks s = (results, sublog, s') ->
+    forall k r, In (k, r) results ->
+      exists v, In (k, v) tasks
+        /\ ((exists n s0, find_node g k = Some n /\ r = fst (fst (run_task V St ops exec sub p n v s0)))
+            \/ (find_node g k = None /\ r = TErr [mkerr eUnknownNode])).
+  Proof.
+    induction tasks as [|[k0 v0] tasks IH]; intros s results sublog s'; cbn [submit].
+    - intros [= <- _ _] k r [].
+    - destruct (find_node g k0) as [n|] eqn:Ef.
+      + destruct (run_task V St ops exec sub p n v0 s) as [[r0 l1] s1] eqn:Er.
+        destruct (submit V St ops exec sub p g tasks s1) as [[rs l2] s2] eqn:Es.
+        intros [= <- _ _] k r [[= <- <-]|Hin].
+        * exists v0. split; [now left|]. left. exists n, s. split; [assumption|]. now rewrite Er.
+        * destruct (IH _ _ _ _ Es k r Hin) as (v & Hv & H). exists v. split; [now right|assumption].
+      + destruct (submit V St ops exec sub p g tasks s) as [[rs l2] s2] eqn:Es.
+        intros [= <- _ _] k r [[= <- <-]|Hin].
+        * exists v0. split; [now left|]. now right.
+        * destruct (IH _ _ _ _ Es k r Hin) as (v & Hv & H). exists v. split; [now right|assumption].
+  Qed.
+
   Lemma step_log ls :
     Forall Q (ls_log V St ls) ->
     match step V St ops exec sub sched p g ls with
@@ -142,7 +163,7 @@ Section DagLoop.
     Inv cs R G [] -> orph cs -> NoDup G ->
     (forall k, In k (akeys completed) -> In k G /\ npred g G k) ->
     calc_next V ops g cs completed = Ok (cs', ready) ->
-    (alookup kEND ready = None -> Inv cs' (akeys completed ++ R) (G ++ akeys ready) [])
+    ((alookup kEND ready = None \/ exists q, gpred g kEND q) -> Inv cs' (akeys completed ++ R) (G ++ akeys ready) [])
     /\ orph cs' /\ NoDup (G ++ akeys ready) /\ sk_mono cs cs'.
   Proof.
     intros HI Ho Hnd Hc. unfold calc_next.
@@ -339,6 +360,27 @@ Section DagLoop.
       intros [= <-]. exists results, sublog, s', completed, running', cs', ready. repeat split; auto.
     Qed.
 
+    (* inversion of the iteration that finishes the run successfully *)
+    Lemma step_done_unfold ls v lg s' :
+      step V St ops exec sub sched p g ls = Finish (Done v lg) s' ->
+      exists results sublog completed running' cs' ready,
+        submit V St ops exec sub p g (ls_next V St ls) (ls_st V St ls) = (results, sublog, s')
+        /\ wait_tasks V sched g (ls_step V St ls) (ls_running V St ls ++ results) = (completed, running')
+        /\ calc_next V ops g (ls_chans V St ls) (task_outputs V completed) = Ok (cs', ready)
+        /\ alookup kEND ready = Some v
+        /\ step_outputs ls = task_outputs V completed
+        /\ lg = ls_log V St ls ++ next_entry ls ++ sublog.
+    Proof.
+      unfold step, step_outputs, step_limit_hit. rewrite Hdag.
+      destruct (submit V St ops exec sub p g (ls_next V St ls) (ls_st V St ls)) as [[results sublog] s1] eqn:Es.
+      destruct (wait_tasks V sched g (ls_step V St ls) (ls_running V St ls ++ results)) as [completed running'] eqn:Ew.
+      destruct (task_errors V completed) eqn:Ete; [|discriminate].
+      destruct completed as [|c0 completed0] eqn:Ec; [discriminate|]. rewrite <- Ec in *.
+      destruct (calc_next V ops g (ls_chans V St ls) (task_outputs V completed)) as [[cs' ready]|e|] eqn:Ecn; [|discriminate..].
+      destruct (alookup kEND ready) eqn:Eend; [|discriminate].
+      intros [= <- <- <-]. exists results, sublog, completed, running', cs', ready. repeat split; auto.
+    Qed.
+
     Lemma task_outputs_nodup (c : list (key * tres V)) : NoDup (akeys c) -> NoDup (akeys (task_outputs V c)).
     Proof.
       unfold akeys. induction c as [|[k r] c IH]; simpl; [constructor|]. intros H.
@@ -372,12 +414,41 @@ Section DagLoop.
       pose proof (Permutation_NoDup Hperm Hnd) as H. now inversion H.
     Qed.
 
+    (* the tasks collected by an iteration have been handed out, are not resolved yet, and are distinct *)
+    Lemma step_completed_pre ls R X G results sublog s' completed running' :
+      LInvR ls R X G ->
+      submit V St ops exec sub p g (ls_next V St ls) (ls_st V St ls) = (results, sublog, s') ->
+      wait_tasks V sched g (ls_step V St ls) (ls_running V St ls ++ results) = (completed, running') ->
+      let Co := akeys (task_outputs V completed) in
+      NoDup Co /\ (forall k, In k Co -> In k G /\ npred g G k /\ ~ In k R).
+    Proof.
+      intros HL Es Ew Co.
+      destruct (submit_spec V St ops g exec sub p _ Hsub _ _ _ _ _ Es) as [Hkres Hsl].
+      pose proof (wait_tasks_perm _ _ _ _ Ew) as Hwp.
+      destruct HL as (HI & Ho & Hnd & Hperm & HndRN & HRuX & HnR & Hlog).
+      set (N := akeys (ls_next V St ls)) in *. set (Ru := akeys (ls_running V St ls)) in *.
+      set (C := akeys completed). set (Ru' := akeys running').
+      assert (HpC : Permutation (C ++ Ru') (Ru ++ N)).
+      { unfold C, Ru', Ru. rewrite <- Hkres. unfold akeys. rewrite <- !map_app. now apply Permutation_map. }
+      assert (HndC : NoDup (C ++ Ru')) by (eapply Permutation_NoDup; [apply Permutation_sym; exact HpC|exact HndRN]).
+      destruct (NoDup_app_inv _ _ HndC) as (HndCC & _ & _).
+      assert (HCo : incl Co C) by apply task_outputs_keys.
+      split; [now apply task_outputs_nodup|].
+      intros k Hk. apply HCo in Hk.
+      assert (Hk2 : In k (Ru ++ N)) by (eapply Permutation_in; [exact HpC|apply in_app_iff; now left]).
+      assert (HkG : In k G).
+      { eapply Permutation_in; [apply Permutation_sym; exact Hperm|]. right.
+        apply in_app_iff. apply in_app_iff in Hk2. destruct Hk2 as [H|H]; [left; now apply HRuX|now right]. }
+      assert (HkR : ~ In k R) by now apply HnR.
+      split; [assumption|]. split; [|assumption]. eapply pending_npred with (R := R); eassumption.
+    Qed.
+
     Lemma step_continue_R ls R X G results sublog s' completed running' cs' ready :
       LInvR ls R X G ->
       submit V St ops exec sub p g (ls_next V St ls) (ls_st V St ls) = (results, sublog, s') ->
       wait_tasks V sched g (ls_step V St ls) (ls_running V St ls ++ results) = (completed, running') ->
       calc_next V ops g (ls_chans V St ls) (task_outputs V completed) = Ok (cs', ready) ->
-      alookup kEND ready = None ->
+      (alookup kEND ready = None \/ exists q, gpred g kEND q) ->
       let Co := akeys (task_outputs V completed) in
       LInvR {| ls_step := S (ls_step V St ls); ls_chans := cs'; ls_next := ready; ls_running := running';
                ls_st := s'; ls_log := ls_log V St ls ++ next_entry ls ++ sublog |}
@@ -432,7 +503,7 @@ Section DagLoop.
     Proof.
       intros (R & X & G & HL) Hstep.
       destruct (step_continue_unfold ls ls' Hstep) as (results & sublog & s' & completed & running' & cs' & ready & Es & Ew & Ecn & Eend & _ & ->).
-      destruct (step_continue_R ls R X G _ _ _ _ _ _ _ HL Es Ew Ecn Eend) as (HL' & _).
+      destruct (step_continue_R ls R X G _ _ _ _ _ _ _ HL Es Ew Ecn (or_introl Eend)) as (HL' & _).
       eexists _, _, _. exact HL'.
     Qed.
 
@@ -473,7 +544,7 @@ Section DagLoop.
       { intros k [<-|[]]. split; [now left|]. intros t [<-|[]] Hne. congruence. }
       assert (Hnd : NoDup [kSTART]) by (constructor; [intros []|constructor]).
       destruct (calc_next_inv _ _ _ _ _ _ HI Ho Hnd Hpre Hc) as (HI' & Ho' & Hnd' & _).
-      specialize (HI' Hend). simpl in HI'.
+      specialize (HI' (or_introl Hend)). simpl in HI'.
       unfold LInvR. cbn [init_state ls_chans ls_next ls_running ls_log].
       split.
       { eapply Inv_grow_R; [| |exact HI'].
